@@ -1,12 +1,30 @@
 import KyupyVerif.Model.Sig
 import KyupyVerif.Proofs.Consistent
+import KyupyVerif.Proofs.AllCircCb
+import KyupyVerif.Proofs.AllCircStrip
+import KyupyVerif.Proofs.AllCircDemo
 /-! # C16 — the fault-injection callback sees and controls every evaluated signal
 
 Model (M): propagation with a callback = `execCb`: after every op the freshly computed value of its output
 signal is passed through `cb out value` and the result is what is stored (the real callback mutates a writable
 view of the signal's memory in place). The call log is one entry per op, in op order. Tied to the code by
 correspondence of the real call log and results in all three logics (harness/c16.py); the per-op semantics of
-the callback chains themselves is regenerated from the code (C01: `sem2c`, C02: m=8 chain with callback). -/
+the callback chains themselves is regenerated from the code (C01: `sem2c`, C02: m=8 chain with callback).
+
+**Theorem, per program:** `cb_once_in_order`, `cb_identity`, `cb_identity_sees_plain_values`, `cb_log_entry`, `cb_override`,
+`cb_force_is_source`, `cb_upstream_unaffected`, `cb_value_sticks` (every op program, any value domain).
+**Theorem, per NETLIST** (part "ALL circuits"): for every well-formed netlist (`Net.wfB`), every topological order
+(`orderOKB`) and the op program of the `SimOps` model: `callback_all_circuits` — one call per scheduled line, in schedule
+order, no line twice, the value handed over is the gate function of the FINAL operand values, the result is THE solution of
+the gate equations followed by the callback; `callback_force_all_circuits`, `callback_force_spec_all_circuits`,
+`callback_force_three_logics` — forcing a line = solving the system in which the equation of that line is replaced by the
+constant (2-valued callback path, 4-, 8-valued dispatch against the documented algebra); `callback_upstream_all_circuits` —
+everything scheduled before the overridden line is as in the run without callback, the callback sees the plain value there;
+`…_stripped` — the same for the `strip_forks` schedule (fork rows dropped, operands read through the stems; well-orderedness
+from `C08.simops_program_facts`; hypotheses `forksOKB`, `readsDrivenB`). All are instances of `callback_wellordered`,
+`callback_force_wellordered`, `callback_force_spec_wellordered`, `callback_upstream_wellordered` (every well-ordered program).
+**Correspondence (not theorem):** that `LogicSim.c_prop(inject_cb=…)` invokes the callback once after every row with the row's
+output line (call sites, harness/c16.py) and that `SimOps` produces the rows of the model (C01). -/
 namespace KV.C16
 open KV KV.Sig
 
@@ -96,6 +114,290 @@ theorem cb_value_sticks {α} (sem : Op → List α → α) (cb : Nat → α → 
       simp [execCbOp, upd, Ne.symm hp]
   rw [frame post _ hout]
   simp [execCbOp, upd]
+
+/-- every program, every callback: the `k`-th invocation receives the identity of the `k`-th row's output and the value the
+    row computes from the state left by the rows before it (overrides of earlier invocations included) -/
+theorem cb_log_entry {α} (sem : Op → List α → α) (cb : Nat → α → α) (ops : List Op) (env : Nat → α) :
+    ∀ pre op post, ops = pre ++ op :: post →
+      (cbLog sem cb ops env)[pre.length]? = some (op.out, sem op (op.ins.map (execCb sem cb pre env))) := by
+  intro pre
+  induction pre generalizing ops env with
+  | nil => intro op post h; subst h; simp [cbLog, execCb]
+  | cons p pre ih =>
+    intro op post h; subst h
+    simp only [List.cons_append, cbLog, List.length_cons, List.getElem?_cons_succ]
+    have := ih (ops := pre ++ op :: post) (env := execCbOp sem cb env p) op post rfl
+    rw [this]
+    rfl
+
+/-! ## every well-ordered program
+
+`WOJ J ops`: no row rewrites the (non-scratch) output of an earlier row or writes an operand of an earlier row, no row
+reads the scratch slot or its own output (`Proofs/Solve.lean`). Proved for the program of every netlist below. -/
+
+/-- call log and meaning of a callback: (a) one invocation per row, in program order, with the identity of the row's output
+    signal; (b) no signal is passed twice (only the scratch slot can repeat); (c) the value passed for a row is the row's
+    function applied to the FINAL values of its operands — overrides made upstream are seen, nothing downstream has
+    happened yet; (d) the result of the run is THE solution of the equation system in which every equation is followed by the
+    callback: it solves it and every solution equals it on every signal except the scratch slot. -/
+theorem callback_wellordered {α} (J : Nat → Bool) (ops : List Op) (hw : WOJ J ops)
+    (sem : Op → List α → α) (cb : Nat → α → α) (env : Nat → α) :
+    (cbLog sem cb ops env).map (·.1) = ops.map (·.out) ∧
+    (((cbLog sem cb ops env).map (·.1)).filter (fun x => !J x)).Nodup ∧
+    (∀ (k : Nat) (o : Op), ops[k]? = some o →
+      (cbLog sem cb ops env)[k]? = some (o.out, sem o (o.ins.map (execCb sem cb ops env)))) ∧
+    SolvesJ J (fun op xs => cb op.out (sem op xs)) ops env (execCb sem cb ops env) ∧
+    ∀ val, SolvesJ J (fun op xs => cb op.out (sem op xs)) ops env val →
+      ∀ x, J x = false → val x = execCb sem cb ops env x := by
+  refine ⟨cb_once_in_order sem cb ops env, ?_, ?_, execG_solution J _ ops hw env,
+    fun val hs => solution_uniqueJ J _ ops hw env val hs⟩
+  · rw [cb_once_in_order]; exact woj_outs_nodup hw
+  · intro k o hk
+    obtain ⟨hsplit, hlen⟩ := getElem?_split hk
+    have he := cb_log_entry sem cb ops env _ o _ hsplit
+    rw [hlen] at he
+    rw [he]
+    have hw' : WOJ J (ops.take k ++ o :: ops.drop (k + 1)) := hsplit ▸ hw
+    have hfin := operands_final J (fun op xs => cb op.out (sem op xs)) (ops.take k) (ops.drop (k + 1)) o env hw'
+    rw [← hsplit] at hfin
+    show some (o.out, sem o (o.ins.map (execG (fun op xs => cb op.out (sem op xs)) (ops.take k) env))) = _
+    rw [hfin]
+    rfl
+
+/-- override = source replacement: forcing signal `x` to `c` yields THE solution of the system in which the equation of `x` is
+    replaced by the constant `c` (all other equations unchanged) -/
+theorem callback_force_wellordered {α} (J : Nat → Bool) (ops : List Op) (hw : WOJ J ops)
+    (sem : Op → List α → α) (x : Nat) (c : α) (env : Nat → α) :
+    SolvesJ J (fun op xs => if op.out = x then c else sem op xs) ops env
+      (execCb sem (fun s v => if s = x then c else v) ops env) ∧
+    ∀ val, SolvesJ J (fun op xs => if op.out = x then c else sem op xs) ops env val →
+      ∀ y, J y = false → val y = execCb sem (fun s v => if s = x then c else v) ops env y := by
+  rw [cb_force_is_source]
+  exact ⟨execG_solution J _ ops hw env, fun val hs => solution_uniqueJ J _ ops hw env val hs⟩
+
+/-- the same against the SPECIFIED gate functions, for a dispatch that agrees with the specification on the (known) op
+    codes of the program -/
+theorem callback_force_spec_wellordered {α} (J : Nat → Bool) (ops : List Op) (hw : WOJ J ops) (hk : KnownProg ops)
+    (sem spec : Nat → List α → α) (heq : ∀ code, KnownCode code → ∀ xs, sem code xs = spec code xs)
+    (x : Nat) (c : α) (env : Nat → α) :
+    SolvesJ J (fun op xs => if op.out = x then c else spec op.code xs) ops env
+      (execCb (fun op => sem op.code) (fun s v => if s = x then c else v) ops env) ∧
+    ∀ val, SolvesJ J (fun op xs => if op.out = x then c else spec op.code xs) ops env val →
+      ∀ y, J y = false → val y = execCb (fun op => sem op.code) (fun s v => if s = x then c else v) ops env y := by
+  rw [cb_force_is_source]
+  exact sim_is_spec_solution J _ _ ops hw
+    (fun op hop xs => by
+      show (if op.out = x then c else sem op.code xs) = (if op.out = x then c else spec op.code xs)
+      rw [heq op.code (hk op hop) xs]) env
+
+/-- upstream frame: a callback that rewrites only signal `x` (to any function `f` of the computed value) (a) leaves every
+    signal whose row stands before the row of `x` — and every signal no row writes — exactly as in the run without callback;
+    (b) is handed, at `x`, the value the plain simulation computes for `x`; (c) `x` ends up carrying `f` of that value.
+    `pre`/`post` = the rows before / after the row `o` that writes `x`. -/
+theorem callback_upstream_wellordered {α} (J : Nat → Bool) (ops : List Op) (hw : WOJ J ops)
+    (sem : Op → List α → α) (x : Nat) (hx : J x = false) (f : α → α) (env : Nat → α) (pre post : List Op) (o : Op)
+    (hsplit : ops = pre ++ o :: post) (hox : o.out = x) :
+    (∀ y, (∀ p ∈ o :: post, p.out ≠ y) →
+      execCb sem (fun s v => if s = x then f v else v) ops env y = execG sem ops env y) ∧
+    (cbLog sem (fun s v => if s = x then f v else v) ops env)[pre.length]? = some (x, execG sem ops env x) ∧
+    execCb sem (fun s v => if s = x then f v else v) ops env x = f (execG sem ops env x) := by
+  have hw' : WOJ J (pre ++ o :: post) := hsplit ▸ hw
+  have hjo : J o.out = false := hox ▸ hx
+  obtain ⟨hpost, hpre⟩ := (woj_at_row hw').2 hjo
+  have hprex : ∀ p ∈ pre, p.out ≠ x := hox ▸ hpre
+  have hup := cb_upstream_unaffected sem x f pre post env hprex
+  have hplain : execG sem ops env x = sem o (o.ins.map (execG sem pre env)) := by
+    have hmem : o ∈ ops := by rw [hsplit]; exact List.mem_append_right _ List.mem_cons_self
+    have h1 := execG_solvesJ J sem ops hw env o hmem hjo
+    rw [hox] at h1
+    rw [h1, operands_final J sem pre post o env hw', ← hsplit]
+  refine ⟨?_, ?_, ?_⟩
+  · intro y hy
+    show execG (fun op xs => (fun s v => if s = x then f v else v) op.out (sem op xs)) ops env y = execG sem ops env y
+    rw [hsplit, execG_before _ pre (o :: post) env y hy, execG_before sem pre (o :: post) env y hy]
+    exact congrFun hup y
+  · have he := cb_log_entry sem (fun s v => if s = x then f v else v) ops env pre o post hsplit
+    rw [he, hup, hox, hplain]
+  · subst hox
+    have hs := cb_value_sticks sem (fun s v => if s = o.out then f v else v) pre post o env hpost
+    rw [hplain, hsplit, hs, hup]
+    show (if o.out = o.out then f _ else _) = _
+    rw [if_pos rfl]
+
+/-! ## ALL circuits
+
+The statements start from a NETLIST: every well-formed `net` (`Net.wfB`), every topological `order` (`orderOKB`), the op
+program `genOps tbl net order false` of the `SimOps` model (equal to the real `ops` by exact correspondence, C01); any value
+domain `α` and op semantics `sem` (all three logics: `callback_force_three_logics`), any callback. With `strip_forks`
+(`…_stripped`; domain hypotheses `forksOKB`, `readsDrivenB` as in C06/C08): the schedule without the fork rows, operands
+resolved through the stems whose memory the branches share — the stripped branches are not evaluated, hence not reported. -/
+
+/-- **call log and meaning of a callback, every netlist** (clauses (a)–(d) of `callback_wellordered`): one invocation per
+    scheduled line, in schedule order; no line twice; the value handed over is the gate function of the FINAL operand values;
+    the run computes THE solution of the netlist's gate equations followed by the callback -/
+theorem callback_all_circuits {α} (tbl : List PrefixRow) (net : Net) (order : List Nat) (hwf : net.wfB = true)
+    (ho : orderOKB net order = true) (sem : Op → List α → α) (cb : Nat → α → α) (env : Nat → α) :
+    let ops := (genOps tbl net order false).map OpRow.toOp
+    (cbLog sem cb ops env).map (·.1) = ops.map (·.out) ∧
+    (((cbLog sem cb ops env).map (·.1)).filter (fun x => !Jt net x)).Nodup ∧
+    (∀ (k : Nat) (o : Op), ops[k]? = some o →
+      (cbLog sem cb ops env)[k]? = some (o.out, sem o (o.ins.map (execCb sem cb ops env)))) ∧
+    SolvesJ (Jt net) (fun op xs => cb op.out (sem op xs)) ops env (execCb sem cb ops env) ∧
+    ∀ val, SolvesJ (Jt net) (fun op xs => cb op.out (sem op xs)) ops env val →
+      ∀ x, Jt net x = false → val x = execCb sem cb ops env x :=
+  callback_wellordered (Jt net) _ (genOps_WOJ tbl net order false hwf ho) sem cb env
+
+/-- … with `strip_forks` -/
+theorem callback_all_circuits_stripped {α} (tbl : List PrefixRow) (net : Net) (order : List Nat) (hwf : net.wfB = true)
+    (ho : orderOKB net order = true) (hf : forksOKB net order = true) (hr : readsDrivenB tbl net order = true)
+    (sem : Op → List α → α) (cb : Nat → α → α) (env : Nat → α) :
+    let ops := (genOps tbl net order true).map (fun r => (⟨r.lut, r.out, r.ins.map (viaStem (stemsOf net true))⟩ : Op))
+    (cbLog sem cb ops env).map (·.1) = ops.map (·.out) ∧
+    (((cbLog sem cb ops env).map (·.1)).filter (fun x => !Jt net x)).Nodup ∧
+    (∀ (k : Nat) (o : Op), ops[k]? = some o →
+      (cbLog sem cb ops env)[k]? = some (o.out, sem o (o.ins.map (execCb sem cb ops env)))) ∧
+    SolvesJ (Jt net) (fun op xs => cb op.out (sem op xs)) ops env (execCb sem cb ops env) ∧
+    ∀ val, SolvesJ (Jt net) (fun op xs => cb op.out (sem op xs)) ops env val →
+      ∀ x, Jt net x = false → val x = execCb sem cb ops env x :=
+  callback_wellordered (Jt net) _ (simops_sig_WOJ tbl net order true hwf ho (fun _ => hf) hr) sem cb env
+
+/-- **override = source replacement, on the netlist**: forcing line `x` to `c` makes every line carry its value in THE
+    solution of the gate-equation system in which the equation of `x` is replaced by the constant `c` (all other equations
+    unchanged) — every netlist, every order, any value domain. -/
+theorem callback_force_all_circuits {α} (tbl : List PrefixRow) (net : Net) (order : List Nat) (hwf : net.wfB = true)
+    (ho : orderOKB net order = true) (sem : Op → List α → α) (x : Nat) (c : α) (env : Nat → α) :
+    let ops := (genOps tbl net order false).map OpRow.toOp
+    SolvesJ (Jt net) (fun op xs => if op.out = x then c else sem op xs) ops env
+      (execCb sem (fun s v => if s = x then c else v) ops env) ∧
+    ∀ val, SolvesJ (Jt net) (fun op xs => if op.out = x then c else sem op xs) ops env val →
+      ∀ y, Jt net y = false → val y = execCb sem (fun s v => if s = x then c else v) ops env y :=
+  callback_force_wellordered (Jt net) _ (genOps_WOJ tbl net order false hwf ho) sem x c env
+
+/-- the same against the SPECIFIED gate functions, for a dispatch that agrees with the specification on known op codes -/
+theorem callback_force_spec_all_circuits {α} (sem spec : Nat → List α → α)
+    (heq : ∀ code, KnownCode code → ∀ xs, sem code xs = spec code xs)
+    (net : Net) (order : List Nat) (hwf : net.wfB = true) (ho : orderOKB net order = true) (x : Nat) (c : α)
+    (env : Nat → α) :
+    let ops := (genOps Gen.kindPrefixes net order false).map OpRow.toOp
+    SolvesJ (Jt net) (fun op xs => if op.out = x then c else spec op.code xs) ops env
+      (execCb (fun op => sem op.code) (fun s v => if s = x then c else v) ops env) ∧
+    ∀ val, SolvesJ (Jt net) (fun op xs => if op.out = x then c else spec op.code xs) ops env val →
+      ∀ y, Jt net y = false → val y = execCb (fun op => sem op.code) (fun s v => if s = x then c else v) ops env y :=
+  callback_force_spec_wellordered (Jt net) _ (genOps_WOJ Gen.kindPrefixes net order false hwf ho)
+    (genOps_known net order false) sem spec heq x c env
+
+/-- … with `strip_forks` -/
+theorem callback_force_spec_all_circuits_stripped {α} (sem spec : Nat → List α → α)
+    (heq : ∀ code, KnownCode code → ∀ xs, sem code xs = spec code xs)
+    (net : Net) (order : List Nat) (hwf : net.wfB = true) (ho : orderOKB net order = true)
+    (hf : forksOKB net order = true) (hr : readsDrivenB Gen.kindPrefixes net order = true) (x : Nat) (c : α)
+    (env : Nat → α) :
+    let ops := (genOps Gen.kindPrefixes net order true).map
+      (fun r => (⟨r.lut, r.out, r.ins.map (viaStem (stemsOf net true))⟩ : Op))
+    SolvesJ (Jt net) (fun op xs => if op.out = x then c else spec op.code xs) ops env
+      (execCb (fun op => sem op.code) (fun s v => if s = x then c else v) ops env) ∧
+    ∀ val, SolvesJ (Jt net) (fun op xs => if op.out = x then c else spec op.code xs) ops env val →
+      ∀ y, Jt net y = false → val y = execCb (fun op => sem op.code) (fun s v => if s = x then c else v) ops env y :=
+  callback_force_spec_wellordered (Jt net) _ (simops_sig_WOJ Gen.kindPrefixes net order true hwf ho (fun _ => hf) hr)
+    (genOps_known_map net order true _ (fun _ => rfl)) sem spec heq x c env
+
+/-- **in all three logics** (real dispatch chains: 2-valued callback path `sem2c`, 4-valued, 8-valued): forcing a line makes
+    the run compute the solution of the documented gate equations with the equation of that line replaced by the constant -/
+theorem callback_force_three_logics (net : Net) (order : List Nat) (hwf : net.wfB = true)
+    (ho : orderOKB net order = true) (x : Nat) :
+    let ops := (genOps Gen.kindPrefixes net order false).map OpRow.toOp
+    (∀ (c : Bool) (env val : Nat → Bool),
+      SolvesJ (Jt net) (fun op xs => if op.out = x then c else specL2 op.code xs) ops env val →
+      ∀ y, Jt net y = false → execCb (fun op => semL2c op.code) (fun s v => if s = x then c else v) ops env y = val y) ∧
+    (∀ (c : V2) (env val : Nat → V2),
+      SolvesJ (Jt net) (fun op xs => if op.out = x then c else specL4 op.code xs) ops env val →
+      ∀ y, Jt net y = false → execCb (fun op => semL4 op.code) (fun s v => if s = x then c else v) ops env y = val y) ∧
+    (∀ (c : V3) (env val : Nat → V3),
+      SolvesJ (Jt net) (fun op xs => if op.out = x then c else specL8 op.code xs) ops env val →
+      ∀ y, Jt net y = false → execCb (fun op => semL8 op.code) (fun s v => if s = x then c else v) ops env y = val y) :=
+  ⟨fun c env val hs y hy => ((callback_force_spec_all_circuits semL2c specL2 (fun _ h xs => semL2c_eq_spec h xs)
+      net order hwf ho x c env).2 val hs y hy).symm,
+   fun c env val hs y hy => ((callback_force_spec_all_circuits semL4 specL4 (fun _ h xs => semL4_eq_spec h xs)
+      net order hwf ho x c env).2 val hs y hy).symm,
+   fun c env val hs y hy => ((callback_force_spec_all_circuits semL8 specL8 (fun _ h xs => semL8_eq_spec h xs)
+      net order hwf ho x c env).2 val hs y hy).symm⟩
+
+/-- **upstream frame, on the netlist** (clauses (a)–(c) of `callback_upstream_wellordered`): everything scheduled before the
+    row of the overridden line `x` is as in the run without callback; the callback is handed the plain value at `x`; `x` ends
+    up carrying `f` of it -/
+theorem callback_upstream_all_circuits {α} (tbl : List PrefixRow) (net : Net) (order : List Nat) (hwf : net.wfB = true)
+    (ho : orderOKB net order = true) (sem : Op → List α → α) (x : Nat) (hx : Jt net x = false) (f : α → α)
+    (env : Nat → α) (pre post : List Op) (o : Op)
+    (hsplit : (genOps tbl net order false).map OpRow.toOp = pre ++ o :: post) (hox : o.out = x) :
+    let ops := (genOps tbl net order false).map OpRow.toOp
+    let cb : Nat → α → α := fun s v => if s = x then f v else v
+    (∀ y, (∀ p ∈ o :: post, p.out ≠ y) → execCb sem cb ops env y = execG sem ops env y) ∧
+    (cbLog sem cb ops env)[pre.length]? = some (x, execG sem ops env x) ∧
+    execCb sem cb ops env x = f (execG sem ops env x) :=
+  callback_upstream_wellordered (Jt net) _ (genOps_WOJ tbl net order false hwf ho) sem x hx f env pre post o hsplit hox
+
+/-- … with `strip_forks` -/
+theorem callback_upstream_all_circuits_stripped {α} (tbl : List PrefixRow) (net : Net) (order : List Nat)
+    (hwf : net.wfB = true) (ho : orderOKB net order = true) (hf : forksOKB net order = true)
+    (hr : readsDrivenB tbl net order = true) (sem : Op → List α → α) (x : Nat) (hx : Jt net x = false) (f : α → α)
+    (env : Nat → α) (pre post : List Op) (o : Op)
+    (hsplit : (genOps tbl net order true).map (fun r => (⟨r.lut, r.out, r.ins.map (viaStem (stemsOf net true))⟩ : Op))
+      = pre ++ o :: post) (hox : o.out = x) :
+    let ops := (genOps tbl net order true).map (fun r => (⟨r.lut, r.out, r.ins.map (viaStem (stemsOf net true))⟩ : Op))
+    let cb : Nat → α → α := fun s v => if s = x then f v else v
+    (∀ y, (∀ p ∈ o :: post, p.out ≠ y) → execCb sem cb ops env y = execG sem ops env y) ∧
+    (cbLog sem cb ops env)[pre.length]? = some (x, execG sem ops env x) ∧
+    execCb sem cb ops env x = f (execG sem ops env x) :=
+  callback_upstream_wellordered (Jt net) _ (simops_sig_WOJ tbl net order true hwf ho (fun _ => hf) hr) sem x hx f env
+    pre post o hsplit hox
+
+/-! ### non-vacuity of the all-circuits statements: `demoNet` (AND2 of lines 2, 3 on line 4, INV1 on line 5; `C01.demoNet`),
+2-valued callback path, `a` = 1 (slot 9), `b` = 0 (slot 10), callback forcing the AND output (line 4) to 1 -/
+def demoEnv : Nat → Bool := fun l => l == 9
+def demoCb : Nat → Bool → Bool := fun s v => if s = 4 then true else v
+
+/-- the hypotheses of `callback_all_circuits` hold; its clauses on this instance: the lines in schedule order, each once;
+    at line 4 the callback is handed the computed 0, at line 5 the inverter of the FORCED 1 -/
+example := callback_all_circuits Gen.kindPrefixes Demo.demoNet Demo.demoOrder Demo.demo_hyps.1 Demo.demo_hyps.2.1
+  (fun op => semL2c op.code) demoCb demoEnv
+example : cbLog (fun op => semL2c op.code) demoCb ((genOps Gen.kindPrefixes Demo.demoNet Demo.demoOrder false).map OpRow.toOp)
+    demoEnv = [(0, true), (1, false), (2, true), (3, false), (4, false), (5, false)] := by decide +kernel
+
+/-- `callback_force_three_logics` applies; forcing flips the inverter output: 1 without, 0 with the callback -/
+example := callback_force_three_logics Demo.demoNet Demo.demoOrder Demo.demo_hyps.1 Demo.demo_hyps.2.1 4
+example : execG (fun op => semL2c op.code) ((genOps Gen.kindPrefixes Demo.demoNet Demo.demoOrder false).map OpRow.toOp) demoEnv 5 = true ∧
+    execCb (fun op => semL2c op.code) demoCb ((genOps Gen.kindPrefixes Demo.demoNet Demo.demoOrder false).map OpRow.toOp) demoEnv 5 = false := by
+  decide +kernel
+
+/-- `callback_upstream_all_circuits` applies to the row of line 4 (four rows before it, one after it) -/
+example := callback_upstream_all_circuits Gen.kindPrefixes Demo.demoNet Demo.demoOrder Demo.demo_hyps.1 Demo.demo_hyps.2.1
+  (fun op => semL2c op.code) 4 (by decide +kernel) (fun _ => true) demoEnv
+  [⟨43690, 0, [9, 6, 6, 6]⟩, ⟨43690, 1, [10, 6, 6, 6]⟩, ⟨43690, 2, [0, 6, 6, 6]⟩, ⟨43690, 3, [1, 6, 6, 6]⟩]
+  [⟨21845, 5, [4, 6, 6, 6]⟩] ⟨34952, 4, [2, 3, 6, 6]⟩ (by rw [Demo.demo_ops.1]; rfl) rfl
+
+/-! … and with `strip_forks`: `forkNet` (`C06.forkNet`; two-branch fork, chained fork), `a` = 1 (slot 12), `b` = 1 (slot 13), the AND
+output (line 6) forced to 0. The stripped schedule has four rows; the branches 1, 3, 5 are read through their stems 0, 0, 4. -/
+def forkEnv : Nat → Bool := fun l => l == 12 || l == 13
+def forkCb : Nat → Bool → Bool := fun s v => if s = 6 then false else v
+
+example := callback_all_circuits_stripped Gen.kindPrefixes Demo.forkNet Demo.forkOrder Demo.fork_hyps.1 Demo.fork_hyps.2.1
+  Demo.fork_hyps.2.2.1 Demo.fork_hyps.2.2.2 (fun op => semL2c op.code) forkCb forkEnv
+/-- four calls (lines 0, 4, 6, 7 — no branch is reported); the OR (line 7) still computes 1 from the stem of branch 3 -/
+example : cbLog (fun op => semL2c op.code) forkCb ((genOps Gen.kindPrefixes Demo.forkNet Demo.forkOrder true).map
+      (fun r => (⟨r.lut, r.out, r.ins.map (viaStem (stemsOf Demo.forkNet true))⟩ : Op))) forkEnv =
+    [(0, true), (4, true), (6, true), (7, true)] := by decide +kernel
+example := callback_force_spec_all_circuits_stripped semL8 specL8 (fun _ h xs => semL8_eq_spec h xs) Demo.forkNet Demo.forkOrder
+  Demo.fork_hyps.1 Demo.fork_hyps.2.1 Demo.fork_hyps.2.2.1 Demo.fork_hyps.2.2.2 6 V3.zero
+theorem fork_stripped_rows : (genOps Gen.kindPrefixes Demo.forkNet Demo.forkOrder true).map
+      (fun r => (⟨r.lut, r.out, r.ins.map (viaStem (stemsOf Demo.forkNet true))⟩ : Op)) =
+    [⟨0xAAAA, 0, [12, 9, 9, 9]⟩, ⟨0xAAAA, 4, [13, 9, 9, 9]⟩] ++ ⟨0x8888, 6, [0, 4, 9, 9]⟩ :: [⟨0xEEEE, 7, [0, 6, 9, 9]⟩] := by
+  have hst : stemsOf Demo.forkNet true = #[none, some 0, some 0, some 0, none, some 4, none, none, some 7, none, none, none,
+      none, none, none, none, none, none] := by decide +kernel
+  rw [Demo.fork_ops.2.1, hst]
+  rfl
+example := callback_upstream_all_circuits_stripped Gen.kindPrefixes Demo.forkNet Demo.forkOrder Demo.fork_hyps.1
+  Demo.fork_hyps.2.1 Demo.fork_hyps.2.2.1 Demo.fork_hyps.2.2.2 (fun op => semL2c op.code) 6 (by decide +kernel) (fun _ => false)
+  forkEnv _ _ _ fork_stripped_rows rfl
 
 /-- non-vacuity: forcing the AND output (signal 10) to true flips the downstream inverter -/
 example : execCb (fun op xs => if op.code = 0 then (xs.getD 0 false && xs.getD 1 false) else !(xs.getD 0 false))
